@@ -217,7 +217,16 @@ def check_retirement_walk(ctx):
     # the function returns only at the end of the chain (successor = None)
     rets = [n.id for n in b.nodes if n.kind == "assign" and not n.ev["dst"]["p"] and n.ev["dst"]["l"] == 0]
     ctx.check(bool(rets), inst, "anchor", b.path, "return value assignments found", None)
-    R.guard(ctx, inst, b, rets, R.guard_edges_for_call(b, gets, "None"), "the answer is produced only once a generation without successor was reached")
+    none_edges = list(R.guard_edges_for_call(b, gets, "None"))
+    # `while let Some(current) = next { ..; next = current.successor.get().cloned(); }`: the loop tests an Option cursor every
+    # definition of which is the (cloned) result of a successor.get() - its None edge is a generation without successor as well
+    tr = A.tracer(b, False)
+    for s_ in A.switches(b):
+        info = A.switch_info(b, s_)
+        root = info.root
+        if root.k == "local" and b.defs.get(root.extra) and all(any(c.nid in gets for c in tr.node_value(d).calls()) for d in b.defs[root.extra]):
+            none_edges += [(s_, l) for l, v in info.edge_vals.items() if v == "None"]
+    R.guard(ctx, inst, b, rets, none_edges, "the answer is produced only once a generation without successor was reached")
     # accumulation by maximum
     mx = R.call("Ord::max", "cmp::max", "u64::max")(b)
     ctx.check(bool(mx) and any(any(m in A.reach(b, A.succs(b, g), sensitive=False)[0] for m in mx) for g in on_cycle or gets), inst, "PIN", b.path,
